@@ -359,3 +359,339 @@ Proof.
   - apply RT_strict, RT_i64.
   - exact norm_strict_sorted.
 Qed.
+
+(** ** Canonicity: a parser all of whose readers are canonical is canonical *)
+Definition Canon {A} (o : A -> list N) (d : dec A) : Prop :=
+  forall bs a r, d bs = Some (a, r) -> bs = o a ++ r.
+(** the same with the bytes already consumed, [pre], in front *)
+Definition Canon' {A} (pre : list N) (d : dec A) (o : A -> list N) : Prop :=
+  forall bs a r, d bs = Some (a, r) -> pre ++ bs = o a ++ r.
+
+Lemma bind_inv {A B} (d : dec A) (k : A -> dec B) bs x :
+  bind d k bs = Some x -> exists a r, d bs = Some (a, r) /\ k a r = Some x.
+Proof. unfold bind. destruct (d bs) as [[a r]|]; [|discriminate]. intros H. exists a, r. auto. Qed.
+
+Lemma Canon_of' {A} (o : A -> list N) d : Canon' [] d o -> Canon o d.
+Proof. intros H bs a r E. exact (H bs a r E). Qed.
+Lemma Canon'_bind {A B} pre (d : dec A) o1 (k : A -> dec B) o :
+  Canon o1 d -> (forall a, Canon' (pre ++ o1 a) (k a) o) -> Canon' pre (bind d k) o.
+Proof.
+  intros H1 H2 bs b r H. apply bind_inv in H. destruct H as (a & r1 & E & H).
+  apply H1 in E. subst bs. rewrite app_assoc. exact (H2 a r1 b r H).
+Qed.
+Lemma Canon'_ret {A} pre (x : A) o : pre = o x -> Canon' pre (ret x) o.
+Proof. intros -> bs a r H. inversion H; subst. reflexivity. Qed.
+Lemma Canon'_fail {A} pre (o : A -> list N) : Canon' pre fail o.
+Proof. intros bs a r H. discriminate. Qed.
+
+Lemma Canon_byte : Canon (fun b => [b]) p_byte.
+Proof. intros [|b t] a r H; inversion H; subst. reflexivity. Qed.
+
+Lemma many_nat_canon {A} (o : A -> list N) d : Canon o d -> forall n bs l r,
+  p_many_nat d n bs = Some (l, r) -> bs = out_list o l ++ r /\ length l = n.
+Proof.
+  intros C. induction n as [|n IH]; intros bs l r; cbn [p_many_nat].
+  - intros H. inversion H; subst. split; reflexivity.
+  - destruct (d bs) as [[x r1]|] eqn:E; [|discriminate].
+    destruct (p_many_nat d n r1) as [[l' r2]|] eqn:E2; [|discriminate].
+    intros H. inversion H; subst. apply C in E. destruct (IH _ _ _ E2) as [-> <-]. subst bs.
+    unfold out_list. cbn [flat_map length]. rewrite <- app_assoc. split; reflexivity.
+Qed.
+Lemma many_nat_length {A} (d : dec A) : forall n bs l r, p_many_nat d n bs = Some (l, r) -> length l = n.
+Proof.
+  induction n as [|n IH]; intros bs l r; cbn [p_many_nat].
+  - intros H. inversion H; subst. reflexivity.
+  - destruct (d bs) as [[x r1]|]; [|discriminate].
+    destruct (p_many_nat d n r1) as [[l' r2]|] eqn:E2; [|discriminate].
+    intros H. inversion H; subst. cbn [length]. f_equal. eapply IH; eauto.
+Qed.
+Lemma Canon'_bind_many {A B} pre (d : dec A) o1 n (k : list A -> dec B) o :
+  Canon o1 d -> (forall l, length l = N.to_nat n -> Canon' (pre ++ out_list o1 l) (k l) o) ->
+  Canon' pre (bind (p_many d n) k) o.
+Proof.
+  intros H1 H2 bs b r H. apply bind_inv in H. destruct H as (l & r1 & E & H).
+  rewrite p_many_eq_nat in E. destruct (many_nat_canon _ _ H1 _ _ _ _ E) as [-> L].
+  rewrite app_assoc. exact (H2 l L r1 b r H).
+Qed.
+
+Lemma valtype_of_byte_inv b t : valtype_of_byte b = Some t -> b = valtype_byte t.
+Proof.
+  unfold valtype_of_byte. destruct (N.eqb_spec b 0x7F) as [->|]; [intros H; inversion H; reflexivity|].
+  destruct (N.eqb_spec b 0x7E) as [->|]; [intros H; inversion H; reflexivity|discriminate].
+Qed.
+Lemma valtypes_of_bytes_inv : forall l ts, valtypes_of_bytes l = Some ts -> l = map valtype_byte ts.
+Proof.
+  induction l as [|b l IH]; intros ts; cbn [valtypes_of_bytes].
+  - intros H. inversion H. reflexivity.
+  - destruct (valtype_of_byte b) as [t|] eqn:E; [|discriminate].
+    destruct (valtypes_of_bytes l) as [ts'|]; [|discriminate]. intros H. inversion H; subst.
+    cbn [map]. rewrite (valtype_of_byte_inv _ _ E), (IH _ eq_refl). reflexivity.
+Qed.
+
+Lemma Canon_valtype : Canon out_valtype p_valtype.
+Proof.
+  apply Canon_of'. unfold p_valtype. eapply Canon'_bind; [apply Canon_byte|intros b].
+  destruct (valtype_of_byte b) as [t|] eqn:E; [|apply Canon'_fail].
+  apply Canon'_ret. cbn [app]. rewrite (valtype_of_byte_inv _ _ E). reflexivity.
+Qed.
+Lemma Canon_blocktype : Canon out_blocktype p_blocktype.
+Proof.
+  apply Canon_of'. unfold p_blocktype. eapply Canon'_bind; [apply Canon_byte|intros b].
+  destruct (N.eqb_spec b 0x40) as [->|]; [apply Canon'_ret; reflexivity|].
+  destruct (N.eqb_spec b 0x7F) as [->|]; [apply Canon'_ret; reflexivity|].
+  destruct (N.eqb_spec b 0x7E) as [->|]; [apply Canon'_ret; reflexivity|apply Canon'_fail].
+Qed.
+Lemma Canon_option {A} (o : A -> list N) d : Canon o d -> Canon (out_option o) (p_option d).
+Proof.
+  intros C. apply Canon_of'. unfold p_option. eapply Canon'_bind; [apply Canon_byte|intros t].
+  destruct (N.eqb_spec t 0) as [->|]; [apply Canon'_ret; reflexivity|].
+  destruct (N.eqb_spec t 1) as [->|]; [|apply Canon'_fail].
+  eapply Canon'_bind; [exact C|intros v]. apply Canon'_ret. reflexivity.
+Qed.
+
+(** one step of a [do]: find the canonicity fact of the first parser among the hints *)
+Ltac can_bind := eapply Canon'_bind; [solve [eauto with candb]|intros ?].
+Ltac can_ret := apply Canon'_ret; cbn [app]; rewrite <- ?app_assoc; reflexivity.
+
+Section Canonical.
+  Variables (du16 du32 : dec N) (ds32 ds64 : dec Z) (norm : list (list N * N) -> option (list (list N * N))).
+  Hypothesis C16 : Canon out_u16 du16.
+  Hypothesis C32 : Canon out_u32 du32.
+  Hypothesis Cs32 : Canon out_i32 ds32.
+  Hypothesis Cs64 : Canon out_i64 ds64.
+  Hypothesis Cnorm : forall l e, norm l = Some e -> e = l.
+
+  Lemma gC_vec {A} (o : A -> list N) d : Canon o d -> Canon (out_vec o) (g_vec du32 d).
+  Proof.
+    intros C bs l r H. unfold g_vec in H. apply bind_inv in H. destruct H as (n & r1 & E & H).
+    apply C32 in E. subst bs. rewrite p_many_eq_nat in H.
+    destruct (many_nat_canon _ _ C _ _ _ _ H) as [-> L].
+    unfold out_vec. rewrite L, N2Nat.id, <- app_assoc. reflexivity.
+  Qed.
+  Lemma gC_bytes : Canon out_bytes (g_bytes du32).
+  Proof.
+    intros bs l r H. unfold g_bytes in H. apply bind_inv in H. destruct H as (n & r1 & E & H).
+    apply C32 in E. subst bs. unfold p_take in H.
+    destruct (N.leb_spec n (N.of_nat (length r1))); [|discriminate]. inversion H; subst; clear H.
+    unfold out_bytes. rewrite firstn_length_le by lia. rewrite N2Nat.id, <- app_assoc, firstn_skipn. reflexivity.
+  Qed.
+  Hint Resolve C16 C32 Cs32 Cs64 gC_vec gC_bytes Canon_valtype Canon_blocktype Canon_option Canon_byte : candb.
+
+  Lemma gC_valtypes : Canon out_valtypes (g_valtypes du32).
+  Proof.
+    apply Canon_of'. unfold g_valtypes. can_bind.
+    destruct (valtypes_of_bytes a) as [ts|] eqn:E; [|apply Canon'_fail].
+    apply Canon'_ret. cbn [app]. unfold out_valtypes. rewrite (valtypes_of_bytes_inv _ _ E). reflexivity.
+  Qed.
+  Lemma gC_functype : Canon out_functype (g_functype du32).
+  Proof.
+    apply Canon_of'. unfold g_functype. eapply Canon'_bind; [apply Canon_byte|intros b].
+    destruct (N.eqb_spec b 0x60) as [->|]; [|apply Canon'_fail].
+    can_bind. can_bind. destruct a0 as [|t [|? ?]]; [| |apply Canon'_fail].
+    - apply Canon'_ret. cbn [app]. unfold out_functype. cbn [ft_params ft_result].
+      rewrite <- ?app_assoc. reflexivity.
+    - apply Canon'_ret. cbn [app]. unfold out_functype. cbn [ft_params ft_result].
+      rewrite <- ?app_assoc. reflexivity.
+  Qed.
+  Lemma gC_name : Canon out_name (g_name du32).
+  Proof.
+    apply Canon_of'. unfold g_name. can_bind. destruct (name_ok a); [|apply Canon'_fail]. can_ret.
+  Qed.
+  Hint Resolve gC_valtypes gC_functype gC_name : candb.
+  Lemma gC_import : Canon out_import (g_import du32).
+  Proof. apply Canon_of'. unfold g_import. can_bind. can_bind. can_bind. can_ret. Qed.
+  Lemma gC_local : Canon out_local (g_local du16).
+  Proof. apply Canon_of'. unfold g_local. can_bind. can_bind. can_ret. Qed.
+  Lemma gC_data : Canon out_data (g_data du32 ds32).
+  Proof. apply Canon_of'. unfold g_data. can_bind. can_bind. can_ret. Qed.
+  Hint Resolve gC_import gC_local gC_data : candb.
+  Lemma gC_memory : Canon out_memory (g_memory du32 ds32).
+  Proof. apply Canon_of'. unfold g_memory. can_bind. can_bind. can_bind. can_ret. Qed.
+  Lemma gC_ginit : Canon out_ginit (g_ginit ds32 ds64).
+  Proof.
+    apply Canon_of'. unfold g_ginit. eapply Canon'_bind; [apply Canon_byte|intros t].
+    destruct (N.eqb_spec t 0) as [->|]; [can_bind; can_ret|].
+    destruct (N.eqb_spec t 1) as [->|]; [can_bind; can_ret|apply Canon'_fail].
+  Qed.
+  Lemma gC_export : Canon out_export (g_export du32).
+  Proof. apply Canon_of'. unfold g_export. can_bind. can_bind. can_ret. Qed.
+  Lemma gC_func : Canon out_func (g_func du16 du32 ds64).
+  Proof. apply Canon_of'. unfold g_func. do 8 can_bind. can_ret. Qed.
+  Hint Resolve gC_memory gC_ginit gC_export gC_func : candb.
+
+  Lemma gC_artifact : Canon output_artifact (g_artifact du16 du32 ds32 ds64 norm).
+  Proof.
+    apply Canon_of'. unfold g_artifact. eapply Canon'_bind; [apply Canon_byte|intros v].
+    destruct (N.eqb_spec v 255) as [->|]; [|apply Canon'_fail].
+    can_bind. rename a into ni.
+    apply Canon'_bind_many with (o1 := out_import); [exact gC_import|intros imports Hlen].
+    do 5 can_bind.
+    destruct (norm a3) as [e|] eqn:E; [apply Cnorm in E; subst e|apply Canon'_fail].
+    can_bind. apply Canon'_ret. cbn [app]. unfold output_artifact.
+    cbn [sa_imports sa_types sa_table sa_memory sa_globals sa_exports sa_code].
+    rewrite Hlen, N2Nat.id. rewrite <- ?app_assoc. reflexivity.
+  Qed.
+End Canonical.
+
+Lemma Canon_strict {A} (o : A -> list N) d (P : A -> Prop) :
+  RT o d P -> (forall bs a r, d bs = Some (a, r) -> P a) -> Canon o (strict d o).
+Proof.
+  intros R B bs a r. unfold strict. destruct (d bs) as [[a' r']|] eqn:E; [|discriminate].
+  destruct (prefixb (o a') bs) eqn:Pf; [|discriminate]. intros H. inversion H; subst.
+  destruct (prefixb_true _ _ Pf) as [r2 ->]. rewrite (R a r2 (B _ _ _ E)) in E. inversion E. reflexivity.
+Qed.
+Lemma norm_strict_id l e : norm_strict l = Some e -> e = l.
+Proof. unfold norm_strict. destruct (sorted_namesb l); [|discriminate]. intros H. inversion H. reflexivity. Qed.
+
+(** the strict parser is byte-canonical (on any input, bytes or not) *)
+Theorem strict_canonical_gen_thm : forall bs a rest,
+  parse_artifact_strict bs = Some (a, rest) -> bs = output_artifact a ++ rest.
+Proof.
+  unfold parse_artifact_strict. apply gC_artifact.
+  - apply (Canon_strict _ _ _ RT_u16). intros bs a r H. apply (decode_u16_bounded _ _ _ H).
+  - apply (Canon_strict _ _ _ RT_u32). intros bs a r H. apply (decode_u32_bounded _ _ _ H).
+  - apply (Canon_strict _ _ _ RT_i32). intros bs a r H. apply (decode_s32_bounded _ _ _ H).
+  - apply (Canon_strict _ _ _ RT_i64). intros bs a r H. apply (decode_s64_range _ _ _ H).
+  - exact norm_strict_id.
+Qed.
+
+Theorem strict_canonical_thm : forall bs a rest,
+  bytes_ok bs -> parse_artifact_strict bs = Some (a, rest) -> bs = output_artifact a ++ rest.
+Proof. intros bs a rest _. apply strict_canonical_gen_thm. Qed.
+
+(** ** What the parser returns is well-formed *)
+Definition Inv {A} (d : dec A) (Q : A -> Prop) : Prop :=
+  forall bs a r, bytes_ok bs -> d bs = Some (a, r) -> Q a /\ bytes_ok r.
+
+Lemma Inv_bind {A B} (d : dec A) Q1 (k : A -> dec B) Q :
+  Inv d Q1 -> (forall a, Q1 a -> Inv (k a) Q) -> Inv (bind d k) Q.
+Proof.
+  intros H1 H2 bs b r Hb H. apply bind_inv in H. destruct H as (a & r1 & E & H).
+  destruct (H1 _ _ _ Hb E) as [Qa Hr1]. exact (H2 a Qa r1 b r Hr1 H).
+Qed.
+Lemma Inv_ret {A} (x : A) (Q : A -> Prop) : Q x -> Inv (ret x) Q.
+Proof. intros Qx bs a r Hb H. inversion H; subst. auto. Qed.
+Lemma Inv_fail {A} (Q : A -> Prop) : Inv fail Q.
+Proof. intros bs a r Hb H. discriminate. Qed.
+Lemma Inv_weaken {A} (d : dec A) (Q Q' : A -> Prop) : Inv d Q -> (forall a, Q a -> Q' a) -> Inv d Q'.
+Proof. intros H W bs a r Hb E. destruct (H _ _ _ Hb E). auto. Qed.
+Lemma Inv_of_Sfx {A} (d : dec A) (Q : A -> Prop) :
+  Sfx d -> (forall bs a r, d bs = Some (a, r) -> Q a) -> Inv d Q.
+Proof.
+  intros S H bs a r Hb E. split; [eauto|]. destruct (S _ _ _ E) as [pre ->].
+  unfold bytes_ok in *. apply Forall_app in Hb. tauto.
+Qed.
+Lemma Inv_byte : Inv p_byte (fun b => b < 256).
+Proof. intros [|b t] a r Hb H; inversion H; subst. inversion Hb; subst. auto. Qed.
+Lemma Inv_take n : Inv (p_take n) (fun l => length l = N.to_nat n /\ bytes_ok l).
+Proof.
+  intros bs l r Hb. unfold p_take. destruct (N.leb_spec n (N.of_nat (length bs))) as [Hle|]; [|discriminate].
+  intros E. inversion E; subst; clear E. rewrite <- (firstn_skipn (N.to_nat n) bs) in Hb.
+  unfold bytes_ok in *. apply Forall_app in Hb. destruct Hb. rewrite firstn_length_le by lia. auto.
+Qed.
+Lemma Inv_many_nat {A} (d : dec A) Q : Inv d Q -> forall n, Inv (p_many_nat d n) (fun l => length l = n /\ Forall Q l).
+Proof.
+  intros H. induction n as [|n IH]; intros bs l r Hb; cbn [p_many_nat].
+  - intros E. inversion E; subst. auto.
+  - destruct (d bs) as [[x r1]|] eqn:E; [|discriminate].
+    destruct (p_many_nat d n r1) as [[l' r2]|] eqn:E2; [|discriminate].
+    intros E3. inversion E3; subst. destruct (H _ _ _ Hb E) as [Qx Hr1].
+    destruct (IH _ _ _ Hr1 E2) as [[L F] Hr]. cbn [length]. auto.
+Qed.
+Lemma Inv_many {A} (d : dec A) Q n : Inv d Q -> Inv (p_many d n) (fun l => length l = N.to_nat n /\ Forall Q l).
+Proof. intros H bs l r Hb. rewrite p_many_eq_nat. apply Inv_many_nat; auto. Qed.
+Lemma Inv_option {A} (d : dec A) Q : Inv d Q -> Inv (p_option d) (wf_opt Q).
+Proof.
+  intros H. unfold p_option. eapply Inv_bind; [apply Inv_byte|intros t _].
+  destruct (t =? 0); [apply Inv_ret; exact I|]. destruct (t =? 1); [|apply Inv_fail].
+  eapply Inv_bind; [exact H|intros v Qv]. apply Inv_ret. exact Qv.
+Qed.
+Lemma Inv_valtype : Inv p_valtype (fun _ => True).
+Proof. apply Inv_of_Sfx; [apply Sfx_valtype|auto]. Qed.
+Lemma Inv_blocktype : Inv p_blocktype (fun _ => True).
+Proof. apply Inv_of_Sfx; [apply Sfx_blocktype|auto]. Qed.
+
+Ltac inv_bind := eapply Inv_bind; [solve [eauto with invdb]|intros ? ?].
+
+Section WF.
+  Variables (du16 du32 : dec N) (ds32 ds64 : dec Z) (norm : list (list N * N) -> option (list (list N * N))).
+  Hypothesis I16 : Inv du16 wf_u16.
+  Hypothesis I32 : Inv du32 wf_u32.
+  Hypothesis Is32 : Inv ds32 wf_i32.
+  Hypothesis Is64 : Inv ds64 wf_i64.
+  Hypothesis Inorm : forall l e, norm l = Some e ->
+    length e = length l /\ (forall P : list N * N -> Prop, Forall P l -> Forall P e) /\ sorted_names e.
+
+  Lemma gI_vec {A} (d : dec A) Q : Inv d Q -> Inv (g_vec du32 d) (fun l => wf_len l /\ Forall Q l).
+  Proof.
+    intros H. unfold g_vec. eapply Inv_bind; [exact I32|intros n Wn].
+    eapply Inv_weaken; [apply Inv_many; exact H|]. intros l [L F]. split; [|exact F].
+    unfold wf_len. rewrite L, N2Nat.id. exact Wn.
+  Qed.
+  Lemma gI_bytes : Inv (g_bytes du32) wf_bytes.
+  Proof.
+    unfold g_bytes. eapply Inv_bind; [exact I32|intros n Wn].
+    eapply Inv_weaken; [apply Inv_take|]. intros l [L F]. split; [|exact F].
+    unfold wf_len. rewrite L, N2Nat.id. exact Wn.
+  Qed.
+  Hint Resolve I16 I32 Is32 Is64 gI_vec gI_bytes Inv_byte Inv_option Inv_valtype Inv_blocktype : invdb.
+  Lemma gI_valtypes : Inv (g_valtypes du32) wf_len.
+  Proof.
+    unfold g_valtypes. inv_bind. destruct (valtypes_of_bytes a) as [ts|] eqn:E; [|apply Inv_fail].
+    apply Inv_ret. apply valtypes_of_bytes_inv in E. subst a. destruct H as [L _].
+    unfold wf_len in *. rewrite map_length in L. exact L.
+  Qed.
+  Lemma gI_functype : Inv (g_functype du32) wf_functype.
+  Proof.
+    unfold g_functype. inv_bind. destruct (a =? 0x60); [|apply Inv_fail]. inv_bind. inv_bind.
+    destruct a1 as [|t [|? ?]]; [| |apply Inv_fail]; apply Inv_ret; unfold wf_functype; cbn [ft_params]; tauto.
+  Qed.
+  Lemma gI_name : Inv (g_name du32) wf_name.
+  Proof.
+    unfold g_name. inv_bind. destruct (name_ok a) eqn:E; [|apply Inv_fail].
+    apply Inv_ret. apply name_ok_iff. exact E.
+  Qed.
+  Hint Resolve gI_valtypes gI_functype gI_name : invdb.
+  Lemma gI_import : Inv (g_import du32) wf_import.
+  Proof.
+    unfold g_import. do 3 inv_bind. apply Inv_ret. unfold wf_import. cbn [si_mod si_item si_ty]. tauto.
+  Qed.
+  Lemma gI_local : Inv (g_local du16) wf_local.
+  Proof. unfold g_local. do 2 inv_bind. apply Inv_ret. unfold wf_local. cbn [sl_mult]. assumption. Qed.
+  Lemma gI_data : Inv (g_data du32 ds32) wf_data.
+  Proof. unfold g_data. do 2 inv_bind. apply Inv_ret. unfold wf_data. cbn [sd_offset sd_init]. tauto. Qed.
+  Hint Resolve gI_import gI_local gI_data : invdb.
+  Lemma gI_memory : Inv (g_memory du32 ds32) wf_memory.
+  Proof.
+    unfold g_memory. do 3 inv_bind. apply Inv_ret. unfold wf_memory. cbn [sm_init sm_max sm_data]. tauto.
+  Qed.
+  Lemma gI_ginit : Inv (g_ginit ds32 ds64) wf_ginit.
+  Proof.
+    unfold g_ginit. inv_bind. destruct (a =? 0); [inv_bind; apply Inv_ret; assumption|].
+    destruct (a =? 1); [inv_bind; apply Inv_ret; assumption|apply Inv_fail].
+  Qed.
+  Lemma gI_export : Inv (g_export du32) wf_export.
+  Proof. unfold g_export. do 2 inv_bind. apply Inv_ret. unfold wf_export. cbn [fst snd]. tauto. Qed.
+  Lemma gI_func : Inv (g_func du16 du32 ds64) wf_func.
+  Proof.
+    unfold g_func. do 8 inv_bind. apply Inv_ret. unfold wf_func.
+    cbn [sf_type_idx sf_return sf_params sf_num_locals sf_locals sf_num_registers sf_constants sf_code].
+    tauto.
+  Qed.
+  Hint Resolve gI_memory gI_ginit gI_export gI_func : invdb.
+
+  Lemma gI_artifact : Inv (g_artifact du16 du32 ds32 ds64 norm) wf_artifact.
+  Proof.
+    unfold g_artifact. inv_bind. destruct (a =? 255); [|apply Inv_fail].
+    inv_bind. rename a0 into ni.
+    eapply Inv_bind; [apply Inv_many; exact gI_import|intros imports [Li Fi]].
+    do 5 inv_bind.
+    destruct (norm a4) as [e|] eqn:E; [|apply Inv_fail].
+    destruct (Inorm _ _ E) as (Le & Fe & Se). destruct H5 as [Lraw Fraw].
+    inv_bind. apply Inv_ret. unfold wf_artifact.
+    cbn [sa_imports sa_types sa_table sa_memory sa_globals sa_exports sa_code].
+    assert (wf_u16 (N.of_nat (length imports))) by (rewrite Li, N2Nat.id; assumption).
+    assert (wf_len e) by (unfold wf_len in *; rewrite Le; exact Lraw).
+    pose proof (Fe _ Fraw). tauto.
+  Qed.
+End WF.
